@@ -222,7 +222,126 @@ def r4_static_inventory(ctx):
             ctx.check(any(k == c or k.startswith(c + '::{closure') for k in cs), 'reset-call:%s' % callee, '%s is called from %s' % (short(callee), short(c)), None, sorted(cs))
 
 
+ITERATE = ('iter', 'values', 'keys', 'into_iter', 'into_values', 'into_keys', 'drain', 'iter_mut', 'values_mut', 'retain', 'extract_if')
+HASHED = ('std::collections::HashMap', 'std::collections::HashSet', 'hashbrown::', 'indexmap::')
+
+
+def r5_identity_counters(ctx):
+    """values drawn from never-reset identity counters may be compared for equality but must not decide an iteration order"""
+    ctx.set_rule('C04.R5')
+    P = ctx.P
+    ident = [p for p, (kind, _, _) in STATICS.items() if kind == 'identity']
+    # --- field-sensitive taint, fixpoint over the whole program
+    t_fields, t_params, t_rets = set(), set(), set()
+
+    PASS = ('clone', 'into', 'from', 'deref', 'deref_mut', 'borrow', 'as_ref', 'to_owned', 'unwrap', 'expect', 'copied', 'cloned', 'get', 'load')
+
+    def tainted(f, t, depth=0):
+        """the VALUE is derived from an identity counter (not merely a structure that contains one somewhere)"""
+        if depth > 40 or not isinstance(t, tuple) or not t:
+            return False
+        k = t[0]
+        if k == 'call':
+            last = t[1].split('::')[-1]
+            if last in ('fetch_add', 'fetch_sub') and any(y[0] == 'static' and y[1] in ident for a in t[2] for y in walk(a)):
+                return True
+            if t[1] in t_rets:
+                return True
+            if last in PASS and t[2]:
+                return tainted(f, t[2][0], depth + 1)
+            return False
+        if k == 'field':
+            if (strip_generics(t[3]), t[2]) in t_fields:
+                return True
+            # projection out of a tuple / Option payload keeps the taint of the aggregate
+            if t[2].isdigit() and t[3] in ('(tuple)', ''):
+                return tainted(f, t[1], depth + 1)
+            return False
+        if k in ('ref', 'rawref', 'deref', 'as'):
+            return tainted(f, t[1], depth + 1)
+        if k == 'cast':
+            return tainted(f, t[2], depth + 1)
+        if k == 'bin':
+            return tainted(f, t[2], depth + 1) or tainted(f, t[3], depth + 1)
+        if k == 'un':
+            return tainted(f, t[2], depth + 1)
+        if k == 'agg':
+            # newtype wrappers (single field) and Some(x) carry the taint of their content
+            return len(t[2]) == 1 and tainted(f, t[2][0], depth + 1)
+        if k == 'phi':
+            return any(tainted(f, x, depth + 1) for x in t[1])
+        if k == 'upd':
+            return tainted(f, t[1], depth + 1)
+        if k == 'arg':
+            return (f.key, t[1]) in t_params
+        return False
+
+    fns = [f for f in P.fn_list if f.crate in ('des', 'des_net_utils') and f.kind != 'promoted']
+    changed = True
+    rounds = 0
+    while changed and rounds < 8:
+        changed = False
+        rounds += 1
+        for f in fns:
+            for b in sorted(f.reachable()):
+                for i, st in enumerate(f.stmts(b)):
+                    if st['k'] != 'assign':
+                        continue
+                    r = st['r']
+                    if r['k'] == 'agg' and r.get('ak') == 'closure':
+                        for idx, op in enumerate(r['ops']):
+                            if tainted(f, f.expr_operand(op, b, i)):
+                                k = (strip_generics(r['def']), str(idx))
+                                if k not in t_fields:
+                                    t_fields.add(k); changed = True
+                    if r['k'] == 'agg' and r.get('ak') == 'adt':
+                        for name, op in zip(r.get('fields', []), r['ops']):
+                            if tainted(f, f.expr_operand(op, b, i)):
+                                k = (strip_generics(r['adt']), name)
+                                if k not in t_fields:
+                                    t_fields.add(k); changed = True
+                    fl = [e for e in st['p']['pr'] if e['k'] == 'field']
+                    if fl and tainted(f, f.expr_rvalue(r, b, i)):
+                        k = (strip_generics(fl[-1].get('adt', '')), fl[-1].get('n', ''))
+                        if k not in t_fields:
+                            t_fields.add(k); changed = True
+            for s in f.calls():
+                if s.name in P.fns:
+                    for idx, a in enumerate(s.args):
+                        if tainted(f, f.expr_operand(a, s.b, 'T')):
+                            k = (s.name, idx + 1)
+                            if k not in t_params:
+                                t_params.add(k); changed = True
+            if f.key not in t_rets:
+                for b, t in ret_trees(f):
+                    if tainted(f, t):
+                        t_rets.add(f.key); changed = True
+                        break
+    ctx.floor('fields carrying identity-counter values', len(t_fields), 2)
+    # --- sinks: tainted key inserted into a hashed collection that is iterated somewhere
+    keyed = {}   # collection field -> insertion site
+    for f in fns:
+        for s in f.calls():
+            if any(s.name.startswith(h) for h in HASHED) and s.name.split('::')[-1] in ('insert', 'entry', 'get_or_insert_with') and len(s.args) > 1:
+                if tainted(f, f.expr_operand(s.args[1], s.b, 'T')):
+                    fld = receiver_field(f.expr_operand(s.args[0], s.b, 'T'))
+                    keyed[fld] = s
+    n_iter = 0
+    for f in fns:
+        for s in f.calls():
+            if s.args and s.name.split('::')[-1] in ITERATE and (any(s.name.startswith(h) for h in HASHED) or (s.argtys and any(h.split('::')[-1] in s.argtys[0] for h in ('HashMap', 'HashSet')))):
+                n_iter += 1
+                fld = receiver_field(f.expr_operand(s.args[0], s.b, 'T'))
+                if fld in keyed:
+                    ctx.violation('identity-keyed-iteration:%s' % fld,
+                                  'the hashed collection `%s` is keyed by a value drawn from a never-reset identity counter and is iterated here: the iteration order then depends on how many ids earlier simulations in this process consumed' % fld,
+                                  s.where(), {'key_inserted_at': keyed[fld].where()})
+    ctx.ok('no hashed collection keyed by an identity-counter value is iterated (%d tainted fields, %d hashed insertions with tainted keys, %d iterations of hashed collections examined)'
+           % (len(t_fields), len(keyed), n_iter), None, sorted('%s.%s' % (a.split('::')[-1], b) for a, b in t_fields)[:12])
+
+
 def run(ctx):
+    r5_identity_counters(ctx)
     r1_one_rng(ctx)
     r2_seeded_executors(ctx)
     r3_forbidden_sources(ctx)
